@@ -3117,6 +3117,8 @@ class SEVM:
             sha3s=pre_ex.sha3s.copy(),
             storages=pre_ex.storages.copy(),
             balances=pre_ex.balances.copy(),
+            known_keys=pre_ex.known_keys.copy(),
+            known_sigs=pre_ex.known_sigs.copy(),
         )
         yield from self.run(ex0)
 
